@@ -105,7 +105,10 @@ impl C09World {
         st.inc("calls_reference");
         st.add("sweep_events_processed", reference.events);
         if reference.shortcut || reference.early {
-            st.inc("harness_fast_path_fired_although_switched_off");
+            // a known exit fired although its boxes say "never": the code takes it on other grounds as well (e.g. an
+            // explicit test for empty operands at the same site). Treated below like any exit the simulator cannot
+            // switch off: the result is checked against the region model.
+            st.inc("observed_known_exit_taken_although_switched_off");
         }
         let (rimg, rres) = match &reference.out {
             Outcome::Ok(x) => x,
@@ -153,10 +156,10 @@ impl C09World {
                 st.inc("probe_early_exit_taken");
             }
             if (no_s && v.shortcut) || (no_e && v.early) {
-                st.inc("harness_fast_path_fired_although_switched_off");
+                st.inc("observed_known_exit_taken_although_switched_off");
             }
             state.add((v.shortcut as u64) << 1 | v.early as u64);
-            if handler && !v.shortcut && !v.early && !v.completed && reference.completed {
+            if handler && !v.completed && reference.completed && !((v.shortcut && !no_s) || (v.early && !no_e)) {
                 st.inc("observed_fast_path_the_simulator_cannot_switch_off");
                 if let Outcome::Ok((_, res)) = &v.out {
                     if let Some((x, y)) = geom::model_mismatch(&self.a, &self.b, op, res) {
@@ -483,6 +486,7 @@ impl World for C09World {
         st.inc("worlds");
         st.add("observed_fast_path_the_simulator_cannot_switch_off", 0);
         st.add("observed_pruning_the_simulator_cannot_switch_off", 0);
+        st.add("observed_known_exit_taken_although_switched_off", 0);
         st.inc(&format!("float_{}", if self.f32_ { "f32" } else { "f64" }));
         st.inc(&format!("family_{}", self.tag.split(';').next().unwrap_or("").split(' ').next().unwrap_or("rect")));
         for op in &self.ops {
